@@ -2832,6 +2832,15 @@ class BailPrintErrorStrategy(antlr4.BailErrorStrategy):
         super().recover(recognizer, e)
 
 
+class BailLexerErrorListener(antlr4.error.ErrorListener.ErrorListener):
+    """Turns token recognition errors into `SyntaxError`s. By default, ANTLR lexers
+    only print such errors and skip the offending characters, such that malformed
+    inputs would be accepted silently."""
+
+    def syntaxError(self, recognizer, offendingSymbol, line, column, msg, e):
+        raise SyntaxError(f"line {line}:{column} {msg}")
+
+
 def used_variables_in_concrete_syntax(
     inp: str | IslaLanguageParser.StartContext,
 ) -> FrozenOrderedSet[str]:
@@ -4045,6 +4054,8 @@ class BnfEmitter(bnfListener.bnfListener):
 
 def parse_bnf(inp: str) -> Grammar:
     lexer = bnfLexer(InputStream(inp))
+    lexer.removeErrorListeners()
+    lexer.addErrorListener(BailLexerErrorListener())
     parser = bnfParser(antlr4.CommonTokenStream(lexer))
     parser._errHandler = BailPrintErrorStrategy()
     bnf_emitter = BnfEmitter()
